@@ -214,36 +214,4 @@ mod harness {
             }
         }
     }
-
-    /// BOUNDED stand-in (string code is outside both verifiers' practical reach): decimal string form and parse round-trip on
-    /// concrete boundary magnitudes x both signs, incl. the 39-digit values at the 128-bit boundary.
-    fn roundtrip(v: u128, negative: bool) {
-        use std::str::FromStr;
-        let i = Integer { value: Uint128::new(v), negative };
-        let s = i.to_string();
-        if v == 0 {
-            assert!(s == "0");
-        }
-        let back = Integer::from_str(&s);
-        assert!(back.is_ok());
-        let back = back.unwrap();
-        assert!(back == i);
-        assert!(back.value == i.value);
-    }
-
-    #[kani::proof]
-    #[kani::unwind(42)]
-    fn c19_string_roundtrip_boundaries() {
-        let sel: u8 = kani::any();
-        let negative: bool = kani::any();
-        let v: u128 = match sel % 6 {
-            0 => 0,
-            1 => 7,
-            2 => 1000,
-            3 => 99_999_999_999_999_999_999_999_999_999_999_999_999u128,      // 10^38 - 1 (38 digits)
-            4 => 100_000_000_000_000_000_000_000_000_000_000_000_000u128,     // 10^38 (39 digits)
-            _ => u128::MAX,
-        };
-        roundtrip(v, negative);
-    }
 }
